@@ -124,7 +124,7 @@ def install(R):
 
     # ---------------------------------------------------------------- Crop.choose_batch_settings
     R.add(K + "Crop.choose_batch_settings", cls="Crop", types={"combos": "V", "cases": "V"}, result="none",
-          ghost={"N": "int"}, ghost_at_call={"N": "NSettings(combos, cases)"}, props=["C07"],
+          ghost={"N": "int"}, ghost_at_call={"N": "NSettings(combos, cases)"}, props=["C07", "C04"],
           requires=[
               ("types", "none_or_int(self.batchsize) and none_or_int(self.num_batches) and none_or_int(self._batch_remainder) "
                         "and (self._batch_remainder is None or ival(self._batch_remainder) >= 0)"),
